@@ -7,6 +7,7 @@ from (`V := Bytes`, `dec b = some b` when the harness says the content decodes).
   wt iter  <cleaned> <last> <wf> <resolved> <watches> <read> <decok> <envres> <flags>
                                                                   → ok <last> <wf> <resolved> <watches> <actions> <reread 0/1>
   wt pass  <cleaned> <resolved> <name>                            → ok 0|1
+  wt arm   <cleaned> <resolved> <wake>                            → ok pass|skip|exit     wake ::= T | L | X | D | N<hex name>
 
   last, envres ::= N | S<hex>        read ::= E<notExist 0/1><syscall 0/1> | C<hex>
   wf, decok ::= 0 | 1                flags ::= <rmFileOk><addFileOk><addDirOk><rmDirOk> (0/1 each)
@@ -104,6 +105,21 @@ def handleWt : List String → String
   | ["pass", cleaned, resolved, name] =>
     match hexDecode cleaned, hexDecode resolved, hexDecode name with
     | some c, some p, some n => "ok " ++ bitS (eventPasses ⟨c⟩ p n)
+    | _, _, _ => "bad-op"
+  | ["arm", cleaned, resolved, wake] =>
+    let w? : Option Wakeup := match wake.toList with
+      | ['T'] => some .tick
+      | ['L'] => some .reload
+      | ['X'] => some .error
+      | ['D'] => some .ctxDone
+      | 'N' :: rest => (hexDecode (String.ofList rest)).map .event
+      | _ => none
+    match hexDecode cleaned, hexDecode resolved, w? with
+    | some c, some p, some w =>
+      match selectArm ⟨c⟩ p w with
+      | .pass => "ok pass"
+      | .skip => "ok skip"
+      | .exit => "ok exit"
     | _, _, _ => "bad-op"
   | _ => "bad-op"
 
